@@ -600,6 +600,8 @@ B('SS-shortcut-without-unique', ['C06'], 'util.py', '_ufunc_set_2d',
   '    if assume_unique:\n        # can only return arguments', '    if True:\n        # can only return arguments', 'I.set-shortcuts', '_ufunc_set_2d')
 B('SS-difference-equal-returns-array', ['C06'], 'util.py', '_ufunc_set_1d',
   '            if arrays_are_equal:\n                if is_difference:', '            if arrays_are_equal:\n                if is_intersection and is_difference:', 'I.set-shortcuts', '_ufunc_set_1d')
+B('SS-equal-shortcut-needs-dtype', ['C06'], 'util.py', '_ufunc_set_1d',
+  '        if len(array) == len(other):', '        if len(array) == len(other) and array.dtype == other.dtype:', 'I.set-shortcuts', '_ufunc_set_1d')
 B('SS-siblings-diverge', ['C06'], 'util.py', '_ufunc_set_2d',
   '        elif is_difference:\n            if len(other) == 0:\n                return array\n\n        if array.shape == other.shape:', '        if array.shape == other.shape:', 'I.set-shortcuts', '_ufunc_set_2d')
 B('AU-ndarray-assumed-unique', ['C06'], 'index.py', 'Index._ufunc_set',
